@@ -104,7 +104,8 @@ class MechDriver(Harness):
         if kc == "DES3":
             return "secret", [(C.CKA_CLASS, C.CKO_SECRET_KEY), (C.CKA_KEY_TYPE, C.CKK_DES3), (C.CKA_VALUE, des_parity(self.rnd(24)))]
         if kc == "GENERIC":
-            return "secret", [(C.CKA_CLASS, C.CKO_SECRET_KEY), (C.CKA_KEY_TYPE, C.CKK_GENERIC_SECRET), (C.CKA_VALUE, self.rnd(64))]
+            return "secret", [(C.CKA_CLASS, C.CKO_SECRET_KEY), (C.CKA_KEY_TYPE, C.CKK_GENERIC_SECRET),
+                              (C.CKA_VALUE, self.rnd(64 if self.rng.random() < 0.5 else 32))]
         r = TK.RSA1024
         if kc == "RSA_PUB":
             return "public", [(C.CKA_CLASS, C.CKO_PUBLIC_KEY), (C.CKA_KEY_TYPE, C.CKK_RSA), (C.CKA_MODULUS, r["n"]),
@@ -301,7 +302,22 @@ class MechDriver(Harness):
             m = self.mech(name, "Wrap")
             self.lastmech = m
             rv, blob, n = p.wrap_key(s, m, hk, self.temp_target(), bufsize=2048)
-            return blob if rv == 0 else None
+            if rv == 0:
+                return blob
+            # the library refuses to WRAP with that key (wrong type for the mechanism, as it must): make the blob with the
+            # reference instead, the key's bytes taken as the mechanism's key - if the library wrongly UNWRAPS with such a
+            # key, the blob is well-formed and the call goes all the way
+            val = d.get(K.CKA_VALUE) if self.kcls == "secret" else None
+            if val and len(val) in (16, 24, 32) and name in ("AES_CBC_PAD", "AES_KEY_WRAP", "AES_KEY_WRAP_PAD"):
+                from . import refcrypto as R
+                target = bytes(range(16))
+                if name == "AES_CBC_PAD":
+                    iv = self.rnd(16)
+                    self.lastmech = Mech(M(name), iv)
+                    return R.cbc("aes", val, iv, target, pad=True)
+                self.lastmech = Mech(M(name))
+                return R.keywrap(val, target) if name == "AES_KEY_WRAP" else R.keywrap_pad(val, target)
+            return None
         except Exception:
             return None
 
